@@ -110,6 +110,9 @@ def main(p):
                 out['samples'].append(dict(method=method, field=fname, state=state,
                                            sent=probelib.short(Dreq.FromString(ch.log[0]['raw']))))
 
+    if a.get('no_aio'):
+        return out
+
     async def amain():
         aclients = {svc: lib.aio(svc) for svc in sync_clients}
         for method, fields, svc in drive:
